@@ -36,6 +36,10 @@ CHECKS = {
          "For every 1-D geometry up to N x crops x 14 algorithms x 6 alpha pixel types x back-ends x both orientations ALL alpha masks are laid out as the lines of one image and resized under four different colour assignments for the transparent pixels; results must be identical, alpha 0 in the output must carry colour 0, the alpha channel must equal the one-channel resize of the alpha plane and an opaque source must give the use_alpha(false) result. 2-D shapes incl. SuperSampling with all masks (<= 8 pixels) or 48 structured masks.",
          "N = 6 / 10; geometries where the destination equals an integer crop are exact copies (C12) and excluded.",
          "DESIGN.md §4 C07"),
+ "C09": ("explicit-state search (stateright BFS) over Resizer histories whose states hold the real Resizer; every transition runs the real operation on the reused and on a fresh Resizer",
+         "State = real Resizer (deduplicated on its Debug rendering: back-end + full contents of the three scratch buffers, plus depth); 176 actions (8 pixel types of pixel size 1..16 and alignment 1/2/4, 4 geometries, 4 algorithms, alpha, fractional crops, erroring calls, reset_internal_buffers, clone, back-end switches) explored exhaustively to depth 2/3 and a 39-action sub-alphabet to depth 3/4; each transition compares result value and destination bytes with Resizer::new(); the search is run twice and the state/transition counts must agree.",
+         "Depth-bounded; the alphabet of geometries and contents is finite and fixed; allocator behaviour (alignment of the scratch Vec) is the system allocator's here and adversarial in C03.",
+         "DESIGN.md §4 C09, §2.3"),
  "C10": ("exact invariant check on the implementation's own integer coefficient tables for every geometry (model level, decides all component values), bound to the code by bounded-exhaustive direct resizes of uniform images",
          "Model level: for every geometry of the model space (full square of sizes up to S, boundary sizes up to 65537 against every small size, CROP1, 7 filters, adaptive on/off) the i16/i32 tables the real normalisers produce are read through the hook and Σk is checked exactly against 2^p, which decides the property for every one of the 256/65536 values. Direct: every 1-D geometry up to N x crops x 14 algorithms x 13 types x back-ends x 2 orientations on images whose line r carries value r (all 256 8-bit values), plus 2-D shapes with SuperSampling; alpha off and alpha at its maximum.",
          "Geometry bounded (S=40/160, N=12/32, extreme ratios from a list); float types only on the listed values; windows with zero total weight have no defined value and are excluded.",
